@@ -141,6 +141,15 @@ theorem kill (pid sig : Nat) : KGMonoOp (fun k => Kernel.kill k pid sig) := by
             · exact refl _
       · exact refl _
 
+
+/-- the daemon's own `kill`: refused with EPERM (only the tick happened) or the plain `kill` -/
+theorem killD (pid sig : Nat) : KGMonoOp (fun k => Kernel.killD k pid sig) := by
+  intro k
+  simp only [Kernel.killD]
+  split
+  · exact tick k
+  · exact kill pid sig k
+
 theorem waitpid (pid : Option Nat) : KGMonoOp (fun k => Kernel.waitpid k pid) := by
   intro k
   simp only [Kernel.waitpid]
@@ -371,6 +380,15 @@ theorem kill (pid sig : Nat) : KNMonoOp (fun k => Kernel.kill k pid sig) := by
             · exact doomAt _ _ _ _
             · exact refl _
       · exact refl _
+
+
+/-- the daemon's own `kill`: refused with EPERM (only the tick happened) or the plain `kill` -/
+theorem killD (pid sig : Nat) : KNMonoOp (fun k => Kernel.killD k pid sig) := by
+  intro k
+  simp only [Kernel.killD]
+  split
+  · exact tick k
+  · exact kill pid sig k
 
 theorem waitpid (pid : Option Nat) : KNMonoOp (fun k => Kernel.waitpid k pid) := by
   intro k
@@ -631,6 +649,14 @@ theorem kill (pid sig : Nat) (k : Kernel) (hk : k.PosK) : KDMono k (Kernel.kill 
             · exact trans (doomAt _ _ _ _) (resolve _ (hk1.step (KStep.doomAt _ _ _ _)))
             · exact resolve _ hk1
       · exact refl _
+
+
+/-- the daemon's own `kill`: refused with EPERM (only the tick happened) or the plain `kill` -/
+theorem killD (pid sig : Nat) (k : Kernel) (hk : k.PosK) : KDMono k (Kernel.killD k pid sig).1 := by
+  simp only [Kernel.killD]
+  split
+  · exact tick k hk
+  · exact kill pid sig k hk
 
 theorem waitpid (pid : Option Nat) (k : Kernel) (hk : k.PosK) : KDMono k (Kernel.waitpid k pid).1 := by
   simp only [Kernel.waitpid]
